@@ -50,7 +50,27 @@ def generate(rng, tier, idx):
         vd = [d for d in info['view_dirs'] if d and not any(c.startswith('.') for c in d.split('/'))]
         if vd:
             mount = rng.choice(vd)
-    return {'prop': ID, 'order_key': '%016x' % rng.getrandbits(64), 'top': 'Manifest',
+    pool = None
+    if rng.random() < 0.04:
+        # a wide tree: more directories than one batch of the worker pool takes (64), discrepancies spread over them;
+        # half of these worlds run on the shipped serial pool wrapper
+        nw = rng.choice([63, 64, 65, 66, 129, 130, 200])
+        topm = [m_ for m_ in g['manifests'] if m_['p'] == 'Manifest']
+        if topm and not any(t_['p'].split('/')[0] == 'wide-dirs' for t_ in g['tree']):
+            for j in range(nw):
+                p_ = 'wide-dirs/d%03d/f' % j
+                g['tree'].append({'p': p_, 'k': 'file', 'c': 'content %d' % j, 'mt': -5_000_000_000})
+                topm[0]['entries'].append({'tag': 'DATA', 'path': p_, 'hashes': ['SHA256']})
+            for j in rng.sample(range(nw), min(nw, rng.choice([3, 8, 20]))):
+                k_ = rng.choice(['delete', 'rewrite', 'stray'])
+                if k_ == 'stray':
+                    muts.append({'m': 'add', 'p': 'wide-dirs/d%03d/stray' % j, 'k': 'file', 'c': 's'})
+                elif k_ == 'delete':
+                    muts.append({'m': 'delete', 'p': 'wide-dirs/d%03d/f' % j})
+                else:
+                    muts.append({'m': 'rewrite', 'p': 'wide-dirs/d%03d/f' % j, 'c': 'changed %d' % j})
+            pool = rng.choice(['serial', 'serial', 'keyed'])
+    return {'prop': ID, 'order_key': '%016x' % rng.getrandbits(64), 'top': 'Manifest', 'pool': pool,
             'chunks': rng.choice([None, None, None, 'mixed', 'tiny', 4096]), 'mount': mount,
             'tree': g['tree'], 'manifests': g['manifests'], 'muts': muts,
             'ops': [{'op': 'verify', 'sub': sub, 'last_mtime': lm,
@@ -88,7 +108,7 @@ def execute(sc):
                 kk = 'storage.' + m['m'] + ('->' + m['k'] if m['m'] in ('retype', 'add') and 'k' in m else '')
                 applied_kinds[kk] = applied_kinds.get(kk, 0) + 1
         mnt = sc.get('mount')
-        seam = Seam(w.root, order_key=sc['order_key'], virtual_root=True, read_chunks=sc.get('chunks'),
+        seam = Seam(w.root, order_key=sc['order_key'], virtual_root=True, read_chunks=sc.get('chunks'), pool=sc.get('pool'),
                     mounts=({mnt: 2001} if mnt else None), default_dev=(1001 if mnt else None))
         xkw = {'allow_xdev': False} if mnt else {}
         if blocking_manifest(w.root):
